@@ -398,13 +398,21 @@ def out_configs(rng, wl, wr, which):
         return [[0, 2 * wl + 2, 2 * wr + 2]]
     if which == "widegroup":
         return [[2, 2 * min(wl, wr) + 2, 0]]
+    # three outputs of three kinds, cut sets nested (copy/count rows lie inside the groups): the middle output's
+    # row straddles the split time while the outputs around it split cleanly (seed c09b needs >= 3 outputs)
+    if which == "triple_group":
+        return [[1, 0, 0], [2, 2 * min(wl, wr), 0], [1, 0, 0]]
+    if which == "triple_count_group":
+        return [[0, wl, wr], [2, min(wl, wr), 0], [1, 0, 0]]
+    if which == "triple_group_count":
+        return [[1, 0, 0], [2, min(wl, wr), 0], [0, wl, wr]]
     if which == "dual_bricks":     # staggered cut points: cache_beyond needs many passes, may hit max_trials
         return [[3, 0, 0], [3, 1, 0]]
     raise ValueError(which)
 
 
 ALL_WHICH = ["count", "count2", "group", "group2", "dual_copy", "dual_group", "dual_group_first", "wide", "widegroup",
-             "dual_bricks"]
+             "dual_bricks", "triple_group", "triple_count_group", "triple_group_count"]
 
 
 def mk_case(w, which, ch, gen, rng=None, sw=None):
@@ -684,7 +692,7 @@ def run(ctx):
         "canonical JSON of (window, outputs, chunks). Exhaustive part: all lists of <= 5 disjoint positive-length "
         "rows on the grid 0..6 (quick) / 0..8 (thorough), ALL chunkings at every admissible cut set, windows "
         "(0..3)x(0..3), neighbour-count output plus a rotating second configuration (count with kernel 2w, group "
-        "former, dual count+copy, dual count+group, group+count, and two deliberately non-window-local kernels "
+        "former, dual count+copy, dual count+group, group+count, three outputs of three kinds copy/count + group former + copy/count with the group former in the middle, and two deliberately non-window-local kernels "
         "judged against the model only); grid 0..10 with <= 5 rows: sampled chunkings (thorough: all chunkings x "
         "all windows for <= 2 rows); random: tight ranges, zero-duration chunks, symmetric int windows, save_when "
         "variants, up to 30 rows with rows longer than the window; malformed: zero-length rows, negative windows, "
